@@ -114,6 +114,59 @@ def threaded_records(jp, rng, n_threads, rounds, chk):
     return recs
 
 
+def compile_stress(jp, rng, n_threads, seconds, n_queries=320):
+    """Several threads compile and evaluate MANY distinct queries on one shared environment
+    (so that any bounded cache inside the environment keeps evicting).  Returns (records, errors)."""
+    import time  # noqa: PLC0415
+
+    env = jp.JSONPathEnvironment()
+    doc = [{"a": k % 7, "b": [k % 3, k % 5]} for k in range(12)]
+    queries = [f"$[?@.a == {k % 7} && @.b[{k % 2}] <= {k // 7}]" for k in range(n_queries)]
+    edoc = core.enc_value(doc)
+    errors = []
+    samples = [[] for _ in range(n_threads)]
+    stop = time.time() + seconds
+    barrier = threading.Barrier(n_threads)
+
+    def work(t):
+        r = random.Random(t * 7919 + 13)
+        barrier.wait()
+        n = 0
+        while time.time() < stop and not errors:
+            q = queries[r.randrange(n_queries)] if r.random() < 0.8 else queries[(n * 17 + t) % n_queries]
+            try:
+                how = n % 3
+                if how == 0:
+                    nodes = env.find(q, doc)
+                elif how == 1:
+                    nodes = env.compile(q).find(doc)
+                else:
+                    nodes = list(env.finditer(q, doc))
+                if n % 50 == 0:
+                    samples[t].append((q, [core.enc_loc(x.location) for x in nodes]))
+            except BaseException as err:  # noqa: BLE001
+                errors.append({"thread": t, "query": q, "error": f"{type(err).__name__}: {err}"[:200]})
+                return
+            n += 1
+
+    old = sys.getswitchinterval()
+    sys.setswitchinterval(1e-6)
+    try:
+        ths = [threading.Thread(target=work, args=(t,)) for t in range(n_threads)]
+        for th in ths:
+            th.start()
+        for th in ths:
+            th.join()
+    finally:
+        sys.setswitchinterval(old)
+    recs = []
+    for t in range(n_threads):
+        for q, locs in samples[t][:40]:
+            recs.append({"op": "find", "q": core.enc_text(q), "doc": edoc, "out": "ok", "stage": "find", "jp": True, "cls": "",
+                         "locs": locs, "threads": n_threads})
+    return recs, errors
+
+
 def handover_records(jp, rng, rounds):
     """One iterator advanced by two alternating threads (strict hand-over)."""
     recs = []
@@ -177,6 +230,12 @@ def run(chk: core.Check, tier: str, seed: int) -> None:
         for nt in (2, 4, 8):
             recs += threaded_records(jp, rng, nt, 12, chk)
     recs += handover_records(jp, rng, 30 if tier == "quick" else 600)
+    for nt in ((4, 8) if tier == "quick" else (2, 4, 8, 16)):
+        srecs, errors = compile_stress(jp, rng, nt, 4.0 if tier == "quick" else 40.0)
+        recs += srecs
+        for e in errors:
+            chk.violation({"clause": "a thread raised while compiling/evaluating on a shared environment", "error": e["error"].split(":")[0]},
+                          {"threads": nt, **e})
     chk.notes["threaded_runs"] = runs * 3
     chk.sample({"threaded_record": {"query": core.dec_text(recs[0]["q"]), "threads": recs[0].get("threads"), "locs": recs[0]["locs"]}})
     common.judge(chk, recs, "c16_threads", what="Trace: per-iterator results of threaded runs vs Eval.tla")
